@@ -535,26 +535,27 @@ def check_select_one(ctx):
                       'name', at=meth.where())
         return
     table = {}
-    for cell in (0, 1, 2, 3, 50):
-        outcome = None
-        for stmt in meth.node.body:
+    def walk_block(stmts, cell):
+        '''Outcome of the block for `cell` items: follows the tests on
+        len(var) into nested if / else blocks.'''
+        for stmt in stmts:
             if isinstance(stmt, ast.If):
                 val = _eval_len(stmt.test, var, cell)
                 if val is None:
-                    outcome = 'undecided'
-                    break
-                branch = stmt.body if val else stmt.orelse
-                res = _first_exit(branch, var)
+                    if any(isinstance(n, (ast.Return, ast.Raise))
+                           for n in ast.walk(stmt)):
+                        return 'undecided'
+                    continue
+                res = walk_block(stmt.body if val else stmt.orelse, cell)
                 if res:
-                    outcome = res
-                    break
+                    return res
             elif isinstance(stmt, ast.Return):
-                outcome = _ret_kind(stmt, var)
-                break
+                return _ret_kind(stmt, var)
             elif isinstance(stmt, ast.Raise):
-                outcome = 'raise ' + _exc_name(stmt)
-                break
-        table[cell] = outcome or 'falls off'
+                return 'raise ' + _exc_name(stmt)
+        return None
+    for cell in (0, 1, 2, 3, 50):
+        table[cell] = walk_block(meth.node.body, cell) or 'falls off'
     ctx.count('decision_table_rows', 5)
     want = {0: 'raise NoItemBrowserError', 1: 'return item',
             2: 'raise TooManyItemsBrowserError',
